@@ -1,99 +1,11 @@
 ----------------------------- MODULE SplatConc -----------------------------
 (***************************************************************************)
-(* Concurrent evaluation of one shared, parsed splat expression (property  *)
-(* C17).  The syntax tree holds per-evaluation state: every anonymous      *)
-(* symbol of a splat has a map  values : EvalContext -> Value  protected   *)
-(* by a read/write lock.  Each goroutine g evaluates the expression in its *)
-(* own context; the methods setValue / Value / clearValue hold the lock    *)
-(* for their whole body, so each is one atomic action here, and the        *)
-(* actions of different goroutines interleave freely.                      *)
-(*                                                                         *)
-(* Program of one evaluation of  src[*][*]  (two nested symbols) when the  *)
-(* source of goroutine g is non-empty (Kind[g] = "full"):                  *)
-(*   for each outer item i:   Set(outer, i); Read(outer)      -- inner src *)
-(*        for each inner item j: Set(inner, j); Read(inner)                *)
-(*        Clear(inner)                                                     *)
-(*   Clear(outer)                                                          *)
-(* and when it is an EMPTY list (Kind[g] = "empty") - the evaluator then   *)
-(* probes the result type with unknown values in child contexts:           *)
-(*   Clear(outer)                       -- the loop ran zero times         *)
-(*   Set(outer, probe) in child context p1;  Read(outer) in p1             *)
-(*        Set(inner, probe) in child context p2;  Read(inner) in p2;  Clear(inner) in p2 *)
-(*   Clear(outer) in p1                                                    *)
+(* SplatConcCore (state, actions, Spec) plus the properties checked by TLC. *)
+(* The split keeps the recursive definitions below out of the module the    *)
+(* TLAPS proofs (spec/proofs/SplatConcProofs.tla) extend: tlapm does not     *)
+(* accept RECURSIVE operators.                                              *)
 (***************************************************************************)
-EXTENDS Integers, Sequences, FiniteSets, TLC
-
-CONSTANTS G,        \* set of goroutines (positive integers)
-          Ctx,      \* function goroutine -> evaluation context id (positive integer < 100)
-          Kind,     \* function goroutine -> "full" | "empty"
-          NOuter, NInner
-
-VARIABLES values,   \* [sym -> [ctx -> value or Absent]]
-          pc,       \* [g -> program counter record]
-          got,      \* [g -> sequence of values read so far]
-          sched     \* sequence of <<op, g>>: the interleaving taken (the schedule to replay)
-
-vars == <<values, pc, got, sched>>
-
-Syms == {"outer", "inner"}
-P1(g) == 100 + g            \* child context of the type probe
-P2(g) == 200 + g            \* its child (probe of the inner splat)
-CtxIds == {Ctx[g] : g \in G} \cup {P1(g) : g \in G} \cup {P2(g) : g \in G}
-Absent == <<"absent">>
-Item(g, sym, i, j) == <<g, sym, i, j>>      \* values are tagged with their goroutine
-Probe(g, sym) == <<g, sym, -1, -1>>         \* the unknown value used by the type probe
-
-\* pc: [ph, i, j]
-PC(ph, i, j) == [ph |-> ph, i |-> i, j |-> j]
-StartPC(g) == IF Kind[g] = "empty" THEN PC("e_clear_o", 0, 0)
-              ELSE IF NOuter = 0 THEN PC("clear_o", 0, 0) ELSE PC("set_o", 1, 0)
-
-Init == /\ values = [s \in Syms |-> [c \in CtxIds |-> Absent]]
-        /\ pc = [g \in G |-> StartPC(g)]
-        /\ got = [g \in G |-> <<>>]
-        /\ sched = <<>>
-
-Log(op, g) == sched' = Append(sched, <<op, g>>)
-
-\* generic map operations (the three methods of the anonymous symbol)
-DoSet(g, sym, c, v, nextpc) ==
-    /\ values' = [values EXCEPT ![sym][c] = v]
-    /\ pc' = [pc EXCEPT ![g] = nextpc]
-    /\ Log("set", g) /\ UNCHANGED got
-DoRead(g, sym, c, nextpc) ==
-    /\ got' = [got EXCEPT ![g] = Append(@, values[sym][c])]
-    /\ pc' = [pc EXCEPT ![g] = nextpc]
-    /\ Log("read", g) /\ UNCHANGED values
-DoClear(g, sym, c, nextpc) ==
-    /\ values' = [values EXCEPT ![sym][c] = Absent]
-    /\ pc' = [pc EXCEPT ![g] = nextpc]
-    /\ Log("clear", g) /\ UNCHANGED got
-
-\* --- non-empty source ---
-SetOuter(g) == pc[g].ph = "set_o" /\ DoSet(g, "outer", Ctx[g], Item(g, "outer", pc[g].i, 0), PC("read_o", pc[g].i, 0))
-ReadOuter(g) == pc[g].ph = "read_o" /\
-    DoRead(g, "outer", Ctx[g], IF NInner > 0 THEN PC("set_i", pc[g].i, 1)
-                               ELSE IF pc[g].i < NOuter THEN PC("set_o", pc[g].i + 1, 0) ELSE PC("clear_o", pc[g].i, 0))
-SetInner(g) == pc[g].ph = "set_i" /\ DoSet(g, "inner", Ctx[g], Item(g, "inner", pc[g].i, pc[g].j), PC("read_i", pc[g].i, pc[g].j))
-ReadInner(g) == pc[g].ph = "read_i" /\
-    DoRead(g, "inner", Ctx[g], IF pc[g].j < NInner THEN PC("set_i", pc[g].i, pc[g].j + 1) ELSE PC("clear_i", pc[g].i, pc[g].j))
-ClearInner(g) == pc[g].ph = "clear_i" /\
-    DoClear(g, "inner", Ctx[g], IF pc[g].i < NOuter THEN PC("set_o", pc[g].i + 1, 0) ELSE PC("clear_o", pc[g].i, 0))
-ClearOuter(g) == pc[g].ph = "clear_o" /\ DoClear(g, "outer", Ctx[g], PC("done", 0, 0))
-
-\* --- empty source: clear, then the type probe in child contexts ---
-EClearOuter(g)  == pc[g].ph = "e_clear_o"  /\ DoClear(g, "outer", Ctx[g], PC("e_set_o", 0, 0))
-ESetOuter(g)    == pc[g].ph = "e_set_o"    /\ DoSet(g, "outer", P1(g), Probe(g, "outer"), PC("e_read_o", 0, 0))
-EReadOuter(g)   == pc[g].ph = "e_read_o"   /\ DoRead(g, "outer", P1(g), PC("e_set_i", 0, 0))
-ESetInner(g)    == pc[g].ph = "e_set_i"    /\ DoSet(g, "inner", P2(g), Probe(g, "inner"), PC("e_read_i", 0, 0))
-EReadInner(g)   == pc[g].ph = "e_read_i"   /\ DoRead(g, "inner", P2(g), PC("e_clear_i", 0, 0))
-EClearInner(g)  == pc[g].ph = "e_clear_i"  /\ DoClear(g, "inner", P2(g), PC("e_clear_o2", 0, 0))
-EClearOuter2(g) == pc[g].ph = "e_clear_o2" /\ DoClear(g, "outer", P1(g), PC("done", 0, 0))
-
-Next == \E g \in G : \/ SetOuter(g) \/ ReadOuter(g) \/ SetInner(g) \/ ReadInner(g) \/ ClearInner(g) \/ ClearOuter(g)
-                     \/ EClearOuter(g) \/ ESetOuter(g) \/ EReadOuter(g) \/ ESetInner(g) \/ EReadInner(g)
-                     \/ EClearInner(g) \/ EClearOuter2(g)
-Spec == Init /\ [][Next]_vars
+EXTENDS SplatConcCore
 
 ---------------------------------------------------------------------------
 \* the sequence of values goroutine g reads when it runs alone
